@@ -6,6 +6,8 @@ import (
 	"os"
 	"runtime/debug"
 	"strconv"
+	"sync"
+	"sync/atomic"
 	"testing"
 	"testing/synctest"
 	"time"
@@ -22,7 +24,36 @@ type harnessPanic struct {
 }
 
 // runPlan executes one plan in a fresh bubble with freshly reset library globals.
+// A run that does not come back: code under test spinning without any simulated time passing cannot be cut off from inside
+// the bubble. With VERIF_RUN_WALL_S set (C09), a watchdog outside the bubble ends the process (exit 3) once a single run has
+// taken that many wall-clock seconds; the driver then re-executes the plan alone and reports it if that does not return either.
+var (
+	wallOnce       sync.Once
+	wallRunStarted atomic.Int64 // unix nanoseconds; 0: no run in progress
+)
+
+func startWallWatchdog() {
+	limit := envInt("VERIF_RUN_WALL_S", 0)
+	if limit <= 0 {
+		return
+	}
+	wallOnce.Do(func() {
+		go func() {
+			for {
+				time.Sleep(time.Second)
+				if s := wallRunStarted.Load(); s != 0 && time.Since(time.Unix(0, s)) > time.Duration(limit)*time.Second {
+					fmt.Fprintf(os.Stderr, "SPIN: a single run has not returned after %d s of wall-clock time\n", limit)
+					os.Exit(3)
+				}
+			}
+		}()
+	})
+}
+
 func runPlan(t *testing.T, prof *Profile, p *Plan) (res *Result) {
+	startWallWatchdog()
+	wallRunStarted.Store(time.Now().UnixNano())
+	defer wallRunStarted.Store(0)
 	var hp *harnessPanic
 	body := func(t *testing.T) {
 		defer func() {
